@@ -104,7 +104,7 @@ def fmtM (m : Manager) (r : Routing) : String :=
 def fmtRoutes (r : Routing) : String :=
   let hs := sortBy (fun (a b : Bytes × Handler) => bytesLt a.1 b.1) r.handlers
   let kind : Handler → String
-    | .conn => "conn" | .closedLocal _ => "local" | .closedRemote => "remote"
+    | .conn c => (if c == 0 then "conn" else "conn2") | .closedLocal _ => "local" | .closedRemote => "remote"
   "routes=" ++ fmtList (hs.map fun kv => s!"{hx kv.1}:{kind kv.2}") "/"
 
 def fmtG (g : Generator) (r : Routing) : String :=
@@ -456,7 +456,7 @@ def stepCore (s : St) (op impl : String) : St × StepOut :=
     let (r', dl) := s.r.deliver id
     let head := match dl with
       | .none => "none conn=0 cc=0"
-      | .conn => "conn conn=1 cc=0"
+      | .conn c => if c == 0 then "conn conn=1 cc=0" else "conn2 conn=0 cc=0"
       | .closedLocal b => s!"local conn=0 cc={if b then 1 else 0}"
       | .closedRemote => "remote conn=0 cc=0"
     -- ghost: only issued, unexpired IDs of a live connection reach it
@@ -467,7 +467,9 @@ def stepCore (s : St) (op impl : String) : St × StepOut :=
       if reached && !live then [("foreign_or_retired_id_reaches_connection", "-", s!"packet for {hx id} was handed to the connection")]
       else if !reached && live then [("issued_id_not_routed", "-", s!"packet for issued connection ID {hx id} was not handed to the connection")]
       else []
-    let inClosing := s.gg.closed && s.gg.closedIDs.contains id && s.gg.clock < s.gg.deadline
+    let inClosing := s.gg.closed && s.gg.closedIDs.contains id && s.gg.clock < s.gg.deadline && !s.gg.second.contains id
+    let pf3 : List Fail := if s.gg.second.contains id && (lw.headD "") != "conn2" then
+        [("expiry_keeps_foreign_entry", "-", s!"packet for {hx id} did not reach the second connection ({lw.headD ""})")] else []
     let n := s.gg.closedPkts + 1
     let pf2 : List Fail := if !inClosing then [] else
       let wantCC := if s.gg.closedLocal && isPow2 n then 1 else 0
@@ -475,14 +477,21 @@ def stepCore (s : St) (op impl : String) : St × StepOut :=
         [("closed_conn_backoff", "-", s!"packet {n} to the closed connection: {cc} CONNECTION_CLOSE retransmissions, expected {wantCC}")]
     let gg' := if inClosing then { s.gg with closedPkts := n } else s.gg
     gFinish s s.g r' head "-" gg' right
-      [match dl with | .none => "pkt:none" | .conn => "pkt:conn" | .closedLocal b => if b then "pkt:local-resend" else "pkt:local-quiet"
-                     | .closedRemote => "pkt:remote"] (pf1 ++ pf2)
+      [match dl with | .none => "pkt:none" | .conn c => (if c == 0 then "pkt:conn" else "pkt:conn2") | .closedLocal b => if b then "pkt:local-resend" else "pkt:local-quiet"
+                     | .closedRemote => "pkt:remote"] (pf1 ++ pf2 ++ pf3)
+  | ["dial2", id] =>
+    if !s.gclosed then skip else
+    let id := unhx id
+    let r' := s.r.install id 1
+    let gg' := { s.gg with second := if s.gg.second.contains id then s.gg.second else id :: s.gg.second }
+    gFinish s s.g r' "ok" "-" gg' right
+      [if s.gg.closedIDs.contains id && s.gg.clock < s.gg.deadline then "dial2:over-standin" else "dial2:fresh"] []
   | _ => (s, { model := "skip", tags := ["skip"] })
 
 def step (s : St) (op impl : String) : St × StepOut :=
   let (s', out) := stepCore s op impl
   -- after an error or a panic the connection is closed: the acceptance monitor judges healthy connections only
-  let isGen := op.startsWith "g." || op.startsWith "pkt " || op.startsWith "timer "
+  let isGen := op.startsWith "g." || op.startsWith "pkt " || op.startsWith "timer " || op.startsWith "dial2 "
   let bad := !isGen && (impl.startsWith "E:" || impl.startsWith "PANIC")
   ({ s' with mg := { s'.mg with dead := s'.mg.dead || bad } }, out)
 
